@@ -13,7 +13,7 @@ import json, os, shutil, subprocess, sys, time
 
 pid, which = sys.argv[1], sys.argv[2]
 suite = "--no-suite" not in sys.argv
-src = "/tmp/seed_%s/seed_out/%s" % (pid, which)
+src = ("/tmp/seed2_%s/seed_out/%s" if which in ("C", "D") else "/tmp/seed_%s/seed_out/%s") % (pid, which)
 sid = "%s-%s" % (pid, which)
 wt = "/tmp/vseed_%s" % sid
 dst = "/verif/seeded/%s" % sid
